@@ -1,9 +1,11 @@
 use crate::engine::*;
 use serde_json::Value;
 
+pub mod c04;
 pub mod c05;
 pub mod c06;
 pub mod c07;
+pub mod c08;
 pub mod c09;
 
 pub struct PropInfo {
@@ -20,8 +22,16 @@ const NUM_ASSUMPTIONS: &[&str] = &[
     "no claim for inputs that were not generated (bounded limb counts, see coverage.stages)",
 ];
 
+const PARSE_ASSUMPTIONS: &[&str] = &[
+    "the reference parser (harness/src/refparse.rs, two-phase, written from the grammar) is correct; it is self-tested on the repository's documented examples on every run",
+    "the noisy renderer only puts junk where the grammar ignores it; every rendered text is additionally cross-checked by the reference parser (a disagreement there is reported as a harness defect, signature harness:render)",
+    "no claim for inputs that were not generated (string lengths and area depths as listed in coverage.stages / rule)",
+];
+
 pub fn info(id: &str) -> Option<PropInfo> {
     Some(match id {
+        "C04" => PropInfo { run: c04::run, replay: c04::replay, gates: c04::gates, rule: c04::RULE, assumptions: PARSE_ASSUMPTIONS },
+        "C08" => PropInfo { run: c08::run, replay: c08::replay, gates: c08::gates, rule: c08::RULE, assumptions: PARSE_ASSUMPTIONS },
         "C05" => PropInfo { run: c05::run, replay: c05::replay, gates: c05::gates, rule: c05::RULE, assumptions: NUM_ASSUMPTIONS },
         "C06" => PropInfo { run: c06::run, replay: c06::replay, gates: c06::gates, rule: c06::RULE, assumptions: NUM_ASSUMPTIONS },
         "C07" => PropInfo { run: c07::run, replay: c07::replay, gates: c07::gates, rule: c07::RULE, assumptions: NUM_ASSUMPTIONS },
@@ -44,6 +54,7 @@ pub fn prepare(_ctx: &Ctx) -> Result<(), String> {
 pub fn selftest(ctx: &Ctx, full: bool) -> Result<usize, String> {
     let mut n = crate::refnum::selftest_i128(ctx.seed ^ 0x9E3779B97F4A7C15)?;
     n += crate::refparse::selftest()?;
+    n += crate::refexec::selftest()?;
     let _ = full;
     Ok(n)
 }
